@@ -1419,7 +1419,7 @@ func init() {
 
 // oracleC06: n counts codec round trips; one reload scenario per 100 of them.
 func oracleC06(r *rng, n int, st *oracleStats) []oracleFailure {
-	st.Rule = "(1) documents from the full value pool: bson.Unmarshal(bson.Marshal(d)) == d for every d the driver API can store (regex options sorted, no empty subtype-2 binary: bsonkit.Transform normalises both on the way in); (2) one history per 100 round trips of 3–24 driver calls (insert/update/replace/delete with all value types, indexes unique × partial × TTL incl. 0 × compound × custom name, drops, 3 databases × 4 collections) on a FileStore engine, Close, Open on the same file: identical catalog (documents in natural order, index definitions, oplog), identical API dump (Find, ListIndexes, local.oplog), identical replies to duplicate probes and a TTL pass afterwards; non-trivial = the reloaded catalog holds at least one document and one secondary index"
+	st.Rule = "(1) documents from the full value pool: bson.Unmarshal(bson.Marshal(d)) == d for every d the driver API can store (regex options sorted, no empty subtype-2 binary: bsonkit.Transform normalises both on the way in); (2) one history per 100 round trips of 3–24 driver calls (insert/update/replace/delete with all value types, indexes unique × partial × TTL incl. 0 × compound × custom name, drops, 3 databases × 4 collections) on a FileStore engine, Close, Open on the same file: identical catalog (documents in natural order, index definitions, oplog), identical API dump (Find, ListIndexes, local.oplog), identical index entries modulo the renumbering of the document objects (every entry rendered through the position of the document it points to), identical replies to duplicate probes and a TTL pass afterwards and identical entries after them; non-trivial = the reloaded catalog holds at least one document and one secondary index"
 	var fails []oracleFailure
 	seenSig := map[string]int{}
 	fail := func(f oracleFailure) {
